@@ -228,6 +228,7 @@ Section Proper.
     destruct (Qeq_bool (T0 c) 0) eqn:E0; [apply Qeq_bool_eq in E0; lra|].
     destruct (0 <? n_plateau c)%Z eqn:E1; [|apply Z.ltb_ge in E1; lia]. simpl.
     destruct (n_plateau c =? 1)%Z eqn:E2; [apply Z.eqb_eq in E2; lia|].
+    fold p. destruct (p <? 1)%Z eqn:E4; [apply Z.ltb_lt in E4; unfold p in E4; lia|].
     fold d. destruct (Qle_bool d 0) eqn:E3; [apply Qle_bool_iff in E3; pose proof proper_d_pos; lra|].
     reflexivity.
   Qed.
@@ -395,23 +396,25 @@ Qed.
 
 (** ** Classification of the accepted configurations *)
 
-(** period 0 with at least one annealing iteration: the first update divides by zero *)
-Definition degenerate (c : cfg) : Prop :=
-  a_on c = true /\ (2 <= n_plateau c)%Z /\ (1 <= n_ann c <= n_plateau c - 2)%Z.
+Lemma div_lt_1_iff a b : (0 < b)%Z -> ((a / b < 1)%Z <-> (a < b)%Z).
+Proof.
+  intros Hb. split; intros H.
+  - destruct (Z_lt_ge_dec a b) as [|Hge]; [assumption|]. exfalso.
+    assert (1 <= a / b)%Z by (apply Z.div_le_lower_bound; lia). lia.
+  - destruct (Z_lt_ge_dec a 0) as [Hn|Hn].
+    + pose proof (Z.div_lt_upper_bound a b 0 Hb ltac:(lia)). lia.
+    + rewrite Z.div_small; lia.
+Qed.
 
-(** a single plateau, or no annealing iteration: the update never does anything *)
-Definition frozen (c : cfg) : Prop :=
-  a_on c = true /\ ((n_plateau c = 1)%Z \/ (2 <= n_plateau c)%Z /\ (n_ann c <= 0)%Z).
-
-Lemma accepted_cases c st : init_anneal c = Ok st ->
-  a_on c = false \/ proper c \/ degenerate c \/ frozen c.
+Lemma accepted_cases c st : init_anneal c = Ok st -> a_on c = false \/ proper c \/ frozen c.
 Proof.
   unfold init_anneal. destruct (a_on c) eqn:Hon; [|auto]. simpl.
   destruct (Qeq_bool (T0 c) 0); [discriminate|].
   destruct (0 <? n_plateau c)%Z eqn:E1; [|discriminate]. apply Z.ltb_lt in E1. simpl.
   destruct (n_plateau c =? 1)%Z eqn:E2.
-  - apply Z.eqb_eq in E2. intros _. right. right. right. split; auto.
+  - apply Z.eqb_eq in E2. intros _. right. right. split; auto.
   - apply Z.eqb_neq in E2.
+    destruct (n_ann c / (n_plateau c - 1) <? 1)%Z eqn:E4; [discriminate|]. apply Z.ltb_ge in E4.
     destruct (Qle_bool _ 0) eqn:E3; [discriminate|]. intros _.
     assert (Hnp : 0 < inject_Z (n_plateau c) - 1).
     { assert (H : inject_Z 2 <= inject_Z (n_plateau c)) by (rewrite <- Zle_Qle; lia).
@@ -421,51 +424,75 @@ Proof.
       assert (Hd : (T0 c - 1) / (inject_Z (n_plateau c) - 1) <= 0).
       { apply Qle_shift_div_r; [exact Hnp | lra]. }
       apply Qle_bool_iff in Hd. congruence. }
-    destruct (Z_le_gt_dec (n_ann c) 0) as [H0|H0].
-    + right. right. right. split; [auto|]. right. lia.
-    + destruct (Z_le_gt_dec (n_plateau c - 1) (n_ann c)) as [H1|H1].
-      * right. left. repeat split; auto; try lia.
-        apply Z.div_le_lower_bound; lia.
-      * right. right. left. repeat split; auto; lia.
+    right. left. repeat split; auto; lia.
 Qed.
 
-Lemma degenerate_crashes c st : init_anneal c = Ok st -> degenerate c ->
-  state_at c 1 = Err Crash /\ forall n, (1 <= n)%nat -> run_anneal c n = Err Crash.
+(** an accepted configuration with at least two plateaus is proper: every theorem about proper
+    configurations is a theorem about every accepted true annealing scheme *)
+Lemma accepted_proper c st : init_anneal c = Ok st -> a_on c = true -> (2 <= n_plateau c)%Z -> proper c.
 Proof.
-  intros Hi [Hon [Hnp Hna]].
-  assert (H1 : state_at c 1 = Err Crash).
-  { simpl. rewrite Hi. simpl. revert Hi. unfold init_anneal, update_temperature. rewrite Hon. simpl.
-    destruct (Qeq_bool (T0 c) 0); [discriminate|].
-    destruct (0 <? n_plateau c)%Z; [|discriminate]. simpl.
+  intros Hi Hon Hnp. destruct (accepted_cases c st Hi) as [Hoff|[Hp|[_ Hf]]]; [congruence | exact Hp | lia].
+Qed.
+
+Lemma frozen_init c : frozen c -> ~ T0 c == 0 ->
+  init_anneal c = Ok {| temp := T0 c; temp_inv := 1 / T0 c; period := None; decr := None |}.
+Proof.
+  intros [Hon Hnp] HT. unfold init_anneal. rewrite Hon, Hnp. simpl.
+  destruct (Qeq_bool (T0 c) 0) eqn:E0; [apply Qeq_bool_eq in E0; contradiction | reflexivity].
+Qed.
+
+(** exactly which configurations [_initialize_annealing] accepts *)
+Lemma accepted_iff c :
+  (exists st, init_anneal c = Ok st) <-> a_on c = false \/ proper c \/ (frozen c /\ ~ T0 c == 0).
+Proof.
+  split.
+  - intros [st Hi]. destruct (accepted_cases c st Hi) as [H|[H|H]]; auto.
+    right. right. split; [exact H|]. intros E. apply Qeq_bool_iff in E.
+    revert Hi. unfold init_anneal. destruct H as [-> _]. simpl. rewrite E. discriminate.
+  - intros [Hoff|[Hp|[Hf HT]]].
+    + exists ctor_state. unfold init_anneal. now rewrite Hoff.
+    + eexists. apply init_proper. exact Hp.
+    + eexists. apply frozen_init; assumption.
+Qed.
+
+(** the repaired guard: fewer annealing iterations than temperature steps is an input error
+    (a crash only for the initial temperature 0, whose inverse is taken first), never accepted *)
+Lemma short_refused c : short c ->
+  (~ T0 c == 0 -> init_anneal c = Err InputError) /\ (forall st, init_anneal c <> Ok st).
+Proof.
+  intros [Hon [Hnp Hna]].
+  assert (E4 : (n_ann c / (n_plateau c - 1) <? 1)%Z = true).
+  { apply Z.ltb_lt. apply div_lt_1_iff; lia. }
+  unfold init_anneal. rewrite Hon. simpl.
+  destruct (Qeq_bool (T0 c) 0) eqn:E0.
+  - split; [|discriminate]. intros H. exfalso. apply H. now apply Qeq_bool_eq.
+  - destruct (0 <? n_plateau c)%Z eqn:E1; [|apply Z.ltb_ge in E1; lia]. simpl.
     destruct (n_plateau c =? 1)%Z eqn:E2; [apply Z.eqb_eq in E2; lia|].
-    destruct (Qle_bool _ 0); [discriminate|]. intros H. inversion H; subst; simpl.
-    rewrite Z.div_small by lia. change (Z.of_nat 1) with 1%Z.
-    destruct (1 <=? n_ann c)%Z eqn:E; [reflexivity | apply Z.leb_gt in E; lia]. }
-  split; [exact H1|]. intros n Hn.
-  destruct (run_anneal c n) as [l|e] eqn:E.
-  - exfalso. destruct (run_anneal_ok_state_at _ _ _ E) as [s Hs].
-    destruct (state_at_prefixes _ _ _ Hs 1%nat Hn) as [s' Hs']. congruence.
-  - (* which error: the run fails at the first update *)
-    unfold run_anneal, run_states in E. rewrite Hi in E. simpl in E.
-    destruct n as [|n]; [lia|]. simpl in E. simpl in H1. rewrite Hi in H1. simpl in H1.
-    change (Z.of_nat 1) with 1%Z in H1. rewrite H1 in E. simpl in E. congruence.
+    rewrite E4. split; [reflexivity | discriminate].
+Qed.
+
+(** an accepted initialisation never leaves a plateau length below 1 behind: the modulo of
+    [_update_temperature] cannot divide by zero *)
+Lemma init_period_pos c st p : init_anneal c = Ok st -> period st = Some p -> (1 <= p)%Z.
+Proof.
+  unfold init_anneal. destruct (a_on c); simpl; [|intros H; inversion H; subst; discriminate].
+  destruct (Qeq_bool (T0 c) 0); [discriminate|].
+  destruct (0 <? n_plateau c)%Z; [|discriminate]. simpl.
+  destruct (n_plateau c =? 1)%Z; [intros H; inversion H; subst; discriminate|].
+  destruct (n_ann c / (n_plateau c - 1) <? 1)%Z eqn:E4; [discriminate|]. apply Z.ltb_ge in E4.
+  destruct (Qle_bool _ 0); [discriminate|]. intros H. inversion H; subst; simpl. intros Hp. inversion Hp; subst. exact E4.
 Qed.
 
 Lemma frozen_state_at c st : init_anneal c = Ok st -> frozen c ->
   temp st = T0 c /\ forall n, state_at c n = Ok st.
 Proof.
   intros Hi [Hon Hf].
-  assert (Ht : temp st = T0 c /\ forall k, (1 <= k)%Z -> update_temperature c k st = Ok st).
-  { revert Hi. unfold init_anneal, update_temperature. rewrite Hon. simpl.
-    destruct (Qeq_bool (T0 c) 0); [discriminate|].
-    destruct (0 <? n_plateau c)%Z; [|discriminate]. simpl.
-    destruct (n_plateau c =? 1)%Z eqn:E2.
-    - intros H. inversion H; subst; simpl. auto.
-    - apply Z.eqb_neq in E2. destruct Hf as [Hf|[_ Hf]]; [lia|].
-      destruct (Qle_bool _ 0); [discriminate|]. intros H. inversion H; subst; simpl. split; [reflexivity|].
-      intros k Hk. destruct (k <=? n_ann c)%Z eqn:E; [apply Z.leb_le in E; lia | reflexivity]. }
-  destruct Ht as [Ht Hu]. split; [exact Ht|].
-  induction n as [|n IH]; [exact Hi|]. simpl. rewrite IH. simpl. apply Hu. lia.
+  assert (Ht : temp st = T0 c /\ period st = None).
+  { revert Hi. unfold init_anneal. rewrite Hon, Hf. simpl.
+    destruct (Qeq_bool (T0 c) 0); [discriminate|]. intros H. inversion H; subst; simpl. auto. }
+  destruct Ht as [Ht Hp]. split; [exact Ht|].
+  induction n as [|n IH]; [exact Hi|]. simpl. rewrite IH. simpl.
+  unfold update_temperature. rewrite Hp. now destruct (a_on c).
 Qed.
 
 Lemma frozen_run c st n : init_anneal c = Ok st -> frozen c ->
@@ -478,18 +505,14 @@ Proof.
   destruct (run_anneal_nth _ _ _ _ _ Hl Hi') as [s [Hs' <-]]. rewrite Hs in Hs'. now inversion Hs'; subst.
 Qed.
 
-(** every accepted configuration runs to completion  <->  it is not degenerate *)
-Lemma total_iff c st : init_anneal c = Ok st ->
-  ((forall n, exists l, run_anneal c n = Ok l) <-> ~ degenerate c).
+(** every accepted configuration runs to completion, for any number of iterations *)
+Lemma accepted_total c st : init_anneal c = Ok st ->
+  forall n, exists l, run_anneal c n = Ok l /\ length l = S n.
 Proof.
-  intros Hi. split.
-  - intros Hall Hd. destruct (degenerate_crashes c st Hi Hd) as [_ Hcr].
-    destruct (Hall 1%nat) as [l Hl]. rewrite Hcr in Hl by lia. discriminate.
-  - intros Hnd n. destruct (accepted_cases c st Hi) as [Hoff|[Hp|[Hd|Hf]]].
-    + destruct (off_run c n Hoff) as [l [Hl _]]. eauto.
-    + destruct (proper_total c Hp n) as [l [Hl _]]. eauto.
-    + contradiction.
-    + destruct (frozen_run c st n Hi Hf) as [l [Hl _]]. eauto.
+  intros Hi n. destruct (accepted_cases c st Hi) as [Hoff|[Hp|Hf]].
+  - destruct (off_run c n Hoff) as [l [Hl [Hlen _]]]. eauto.
+  - apply proper_total. exact Hp.
+  - destruct (frozen_run c st n Hi Hf) as [l [Hl [Hlen _]]]. eauto.
 Qed.
 
 (** ** The same facts stated on the list of temperatures returned by [run_anneal] *)
@@ -548,7 +571,7 @@ Lemma rs_inverse c n ls k st : proper c -> run_states c n = Ok ls -> nth_error l
   temp_inv st == / temp st /\ 0 < temp_inv st /\ temp_inv st <= 1.
 Proof. intros Hc Hr E. eapply proper_inverse; eauto. eapply run_states_nth; eauto. Qed.
 
-(** ** Witnesses (non-vacuity of [proper]; the three defects of the scheme) *)
+(** ** Witnesses (non-vacuity of [proper], [short], [frozen]; the remaining defects of the scheme) *)
 
 Ltac solve_num := first [reflexivity | lia | (vm_compute; intro; discriminate) | (vm_compute; reflexivity)].
 
@@ -563,30 +586,43 @@ Proof. vm_compute. reflexivity. Qed.
 Example proper_default_20 : exists c, default_cfg 20 = Ok c /\ proper c.
 Proof. eexists. split; [reflexivity|]. unfold proper; simpl. repeat split; solve_num. Qed.
 
-(** F11a: the shipped annealing defaults with n_iter = 10 are accepted and crash at iteration 1 *)
-Lemma default_10_crashes :
-  exists c st, default_cfg 10 = Ok c /\ init_anneal c = Ok st /\ degenerate c /\ run_anneal c 10 = Err Crash.
+Example accepted_example :
+  exists st, init_anneal {| a_on := true; n_ann := 30; T0 := 5; n_plateau := 4 |} = Ok st /\ period st = Some 10%Z.
+Proof. eexists. split; vm_compute; reflexivity. Qed.
+
+(** the smallest accepted number of annealing iterations: one iteration per temperature step *)
+Example proper_minimal : proper {| a_on := true; n_ann := 9; T0 := 10; n_plateau := 10 |}.
+Proof. unfold proper; simpl. repeat split; solve_num. Qed.
+
+Example short_example : short {| a_on := true; n_ann := 8; T0 := 10; n_plateau := 10 |}.
+Proof. unfold short; simpl. repeat split; solve_num. Qed.
+
+Example frozen_accepted_example :
+  frozen {| a_on := true; n_ann := 5; T0 := 10; n_plateau := 1 |} /\ ~ (10 : Q) == 0.
+Proof. split; [split; reflexivity | solve_num]. Qed.
+
+(** F11a repaired: the shipped annealing defaults with n_iter = 10 (5 annealing iterations for 9 temperature
+    steps) and with n_iter = 1 (no annealing iteration) are refused at initialisation; n_iter = 17 is the
+    largest refused number of iterations, 18 the smallest accepted one *)
+Lemma defaults_short_refused :
+  (exists c, default_cfg 10 = Ok c /\ short c /\ init_anneal c = Err InputError) /\
+  (exists c, default_cfg 1 = Ok c /\ short c /\ n_ann c = 0%Z /\ init_anneal c = Err InputError) /\
+  (exists c, default_cfg 17 = Ok c /\ short c /\ init_anneal c = Err InputError) /\
+  (exists c, default_cfg 18 = Ok c /\ proper c).
 Proof.
-  eexists. eexists. split; [reflexivity|]. split; [vm_compute; reflexivity|]. split.
-  - unfold degenerate; simpl. vm_compute. intuition discriminate.
-  - vm_compute. reflexivity.
+  repeat split; eexists; (split; [reflexivity|]).
+  - split; [unfold short; simpl; repeat split; solve_num | vm_compute; reflexivity].
+  - split; [unfold short; simpl; repeat split; solve_num |]. split; vm_compute; reflexivity.
+  - split; [unfold short; simpl; repeat split; solve_num | vm_compute; reflexivity].
+  - unfold proper; simpl. repeat split; solve_num.
 Qed.
 
-(** F11b: accepted configurations whose temperature never moves from T0 > 1 *)
-Lemma frozen_witnesses :
-  (exists c st, init_anneal c = Ok st /\ frozen c /\ n_plateau c = 1%Z /\ 1 < T0 c) /\
-  (exists c st, init_anneal c = Ok st /\ frozen c /\ (2 <= n_plateau c)%Z /\ n_ann c = 0%Z /\ 1 < T0 c) /\
-  (exists c st, default_cfg 1 = Ok c /\ init_anneal c = Ok st /\ frozen c).
+(** F11b: an accepted configuration whose temperature never moves from T0 > 1 (single plateau) *)
+Lemma frozen_witness :
+  exists c st, init_anneal c = Ok st /\ frozen c /\ 1 < T0 c.
 Proof.
-  split; [|split].
-  - exists {| a_on := true; n_ann := 5; T0 := 10; n_plateau := 1 |}. eexists.
-    split; [vm_compute; reflexivity|]. split; [unfold frozen; simpl; split; [reflexivity | left; reflexivity]|].
-    simpl. split; solve_num.
-  - exists {| a_on := true; n_ann := 0; T0 := 10; n_plateau := 10 |}. eexists.
-    split; [vm_compute; reflexivity|]. split; [unfold frozen; simpl; split; [reflexivity | right; lia]|].
-    simpl. repeat split; solve_num.
-  - eexists. eexists. split; [reflexivity|]. split; [vm_compute; reflexivity|].
-    unfold frozen; simpl. split; [reflexivity|]. right. vm_compute. split; intro; discriminate.
+  exists {| a_on := true; n_ann := 5; T0 := 10; n_plateau := 1 |}. eexists.
+  split; [vm_compute; reflexivity|]. split; [split; reflexivity|]. simpl. solve_num.
 Qed.
 
 (** with a single plateau the guard [initial_temperature > 1] is never evaluated *)
@@ -594,6 +630,6 @@ Lemma below_one_witness :
   exists c st, init_anneal c = Ok st /\ frozen c /\ T0 c < 1 /\ 0 < T0 c.
 Proof.
   exists {| a_on := true; n_ann := 5; T0 := 1 # 2; n_plateau := 1 |}. eexists.
-  split; [vm_compute; reflexivity|]. split; [unfold frozen; simpl; split; [reflexivity | left; reflexivity]|].
+  split; [vm_compute; reflexivity|]. split; [split; reflexivity|].
   simpl. split; solve_num.
 Qed.
